@@ -4460,6 +4460,10 @@ py_statements = [
             "{c_const}{cxx_type} * {cxx_var} ="
             "\t {py_var} ? {py_var}->{PY_type_obj} : {nullptr};",
         ],
+        post_call=[
+            # The argument is a borrowed reference, the return value must be owned.
+            "Py_INCREF({py_var});",
+        ],
         object_created=True,
     ),
     dict(
